@@ -2,6 +2,7 @@ package rules
 
 import (
 	"fmt"
+	"go/token"
 
 	"golang.org/x/tools/go/ssa"
 
@@ -66,4 +67,118 @@ func c16Wakeup(c *Ctx) {
 		}
 	}
 	c.Check(n >= 1, "wakeup-not-lost", "non-blocking wake-up found", "-", fmt.Sprint(n), "agentConnection.receive no longer signals its reader with a non-blocking send (rule needs re-anchoring)")
+}
+
+// c16EOFAfterDrain: the agent connection reports end-of-stream to the service only when nothing is left in its
+// receive buffer. The session loop closes the connection as soon as the agent's EOF message (or the agent's
+// disconnect) is processed, which can be well before the service has read the bytes relayed ahead of it; a Read that
+// answers io.EOF from the closed flag/closed channel first silently drops those bytes.
+func c16EOFAfterDrain(c *Ctx) {
+	p := c.P
+	at := p.Type(agentRel, "agentConnection")
+	rd := p.Method(agentRel, "agentConnection", "Read")
+	if at != nil && rd == nil {
+		rd = p.Method(agentRel, at.Obj().Name(), "Read")
+	}
+	if !c.Anchor(at != nil && rd != nil, "eof-after-drain", "agentConnection.Read") {
+		return
+	}
+	buf := fieldByType(at, isByteSlice)
+	if !c.Anchor(buf != "", "eof-after-drain", "agentConnection's []byte receive buffer") {
+		return
+	}
+	isBufLen := func(v ssa.Value) bool {
+		call, ok := v.(*ssa.Call)
+		if !ok {
+			return false
+		}
+		b, ok := call.Call.Value.(*ssa.Builtin)
+		if !ok || b.Name() != "len" {
+			return false
+		}
+		ld, ok := call.Call.Args[0].(*ssa.UnOp)
+		if !ok {
+			return false
+		}
+		fa, ok := ld.X.(*ssa.FieldAddr)
+		return ok && fieldNameOf(fa) == buf && NamedOf(fa.X.Type()) != nil && NamedOf(fa.X.Type()).Obj() == at.Obj()
+	}
+	var drained func(at ssa.Instruction, depth int) bool
+	// helperSaysEmpty: v is the boolean result of an in-repo helper that reports "something was buffered"; it returns
+	// false only where the buffer was found empty
+	helperSaysEmpty := func(v ssa.Value, depth int) bool {
+		idx := 0
+		call, ok := v.(*ssa.Call)
+		if ex, isE := v.(*ssa.Extract); isE {
+			call, ok = ex.Tuple.(*ssa.Call)
+			idx = ex.Index
+		}
+		if !ok || depth > 1 {
+			return false
+		}
+		hf := call.Call.StaticCallee()
+		if hf == nil || !InRepo(hf) || hf.Blocks == nil {
+			return false
+		}
+		falses := 0
+		for _, r := range Returns(hf) {
+			rv := RetVals(r)
+			if idx >= len(rv) {
+				return false
+			}
+			k, isC := rv[idx].(*ssa.Const)
+			if !isC || k.Value == nil {
+				return false
+			}
+			if k.Value.String() == "false" {
+				falses++
+				if !drained(r, depth+1) {
+					return false
+				}
+			}
+		}
+		return falses > 0
+	}
+	drained = func(at ssa.Instruction, depth int) bool {
+		for _, dc := range DomConds(at) {
+			if atom, pol := condAtom(dc.V); pol != dc.Pol && helperSaysEmpty(atom, depth) {
+				return true
+			}
+			bo, ok := dc.V.(*ssa.BinOp)
+			if !ok || !isBufLen(bo.X) {
+				continue
+			}
+			k, isC := ConstInt(bo.Y)
+			if !isC || k != 0 {
+				continue
+			}
+			switch {
+			case bo.Op == token.NEQ && !dc.Pol, bo.Op == token.EQL && dc.Pol, bo.Op == token.GTR && !dc.Pol, bo.Op == token.LEQ && dc.Pol:
+				return true
+			}
+		}
+		return false
+	}
+	n := 0
+	for _, r := range Returns(rd) {
+		rv := RetVals(r)
+		if len(rv) != 2 {
+			continue
+		}
+		ev := Unwrap(rv[1])
+		if IsNilConst(ev) {
+			continue
+		}
+		ld, ok := ev.(*ssa.UnOp)
+		if !ok {
+			continue
+		}
+		g, ok := ld.X.(*ssa.Global)
+		if !ok || g.Pkg == nil || g.Pkg.Pkg.Path() != "io" || g.Name() != "EOF" {
+			continue
+		}
+		n++
+		c.Check(drained(r, 0), "eof-after-drain", fmt.Sprintf("Read returns io.EOF #%d", n), p.InstrPos(r), "only after the receive buffer was found empty", "agentConnection.Read reports io.EOF without first having found its receive buffer empty: bytes the agent relayed before its EOF (or before it disconnected) that the service has not read yet are dropped – the stream the service sees is cut short")
+	}
+	c.Floor("eof-after-drain", 1, "the closed-channel arm of agentConnection.Read")
 }
